@@ -31,7 +31,7 @@ func init() {
 		"errors.Is":               mErrorsIs,
 		"sort.SliceStable":        mSortSlice(true),
 		"sort.Slice":              mSortSlice(false),
-		"errors.As":               mFreshResult("errors.As"),
+		"errors.As":               mErrorsAs,
 		"errors.New":              mNewError,
 		"fmt.Errorf":              mErrorf,
 		"context.WithCancel":      mWithCancel,
@@ -150,6 +150,16 @@ func mCondWait(x *Exec, cfg *Config, f *Frame, args []Val, pos token.Pos) (Val, 
 
 func mErrorsIs(x *Exec, cfg *Config, f *Frame, args []Val, pos token.Pos) (Val, []*Config) {
 	return TV{T: x.errIs(x.tv(args[0]), x.tv(args[1]))}, nil
+}
+
+// errors.As(err, target): an uninterpreted function of the error and the
+// target (its effect on *target is not modelled).
+func mErrorsAs(x *Exec, cfg *Config, f *Frame, args []Val, pos token.Pos) (Val, []*Config) {
+	return TV{T: x.errAs(x.tvFor(cfg.st, args[0]), x.tvFor(cfg.st, args[1]))}, nil
+}
+
+func (x *Exec) errAs(a, b Term) Term {
+	return x.d.Fun("err.as", []Sort{SInt, SInt}, SBool)(a, b)
 }
 
 func mNewError(x *Exec, cfg *Config, f *Frame, args []Val, pos token.Pos) (Val, []*Config) {
